@@ -172,3 +172,50 @@ func Harness_C11_ProposeStep() {
 	verifAssert("records the current L1 block time", got.L1BlockTime.Equal(ctx.BlockTime()))
 	verifAssert("records the current L1 block height", got.L1BlockNumber == uint64(ctx.BlockHeight()))
 }
+
+// C05 (e): the last-finalized-output query names the highest final index of THAT bridge (0 when none is final).
+// Outputs of other bridges — stored before and after it in key order — never leak into the answer.
+func Harness_C05_LastFinalizedQuery() {
+	n := 2
+	if verifThorough() {
+		n = 3
+	}
+	boundStores(n, 1)
+	k, _, ctx := setup()
+	b := verifSymU64("bridge")
+	cfg, err := k.GetBridgeConfig(ctx, b)
+	verifAssume(err == nil && cfg.FinalizationPeriod > 0)
+	idx, out, qerr := k.GetLastFinalizedOutput(ctx, b)
+	verifAssert("the query does not fail for an existing bridge", qerr == nil)
+	if qerr != nil {
+		return
+	}
+	isFinal := func(i uint64) (bool, bool) {
+		o, e := k.GetOutputProposal(ctx, b, i)
+		if e != nil {
+			return false, false
+		}
+		f, fe := k.IsFinalized(ctx, b, i)
+		_ = o
+		return fe == nil && f, true
+	}
+	if idx != 0 {
+		verifReach("a final output is named")
+		stored, serr := k.GetOutputProposal(ctx, b, idx)
+		verifAssert("the named index is an output of this bridge", serr == nil)
+		if serr == nil {
+			verifAssert("the returned output is the stored one", sameOutput(out, stored))
+			f, _ := isFinal(idx)
+			verifAssert("the named output is final", f)
+		}
+	} else {
+		verifReach("no final output")
+	}
+	// no output of this bridge with a higher index is final (arbitrary other index j)
+	j := verifSymU64("otherIndex")
+	if fj, exists := isFinal(j); exists && j > idx {
+		verifAssert("no higher index of this bridge is final", !fj)
+	}
+	res, rerr := NewQuerier(k).LastFinalizedOutput(ctx, &types.QueryLastFinalizedOutputRequest{BridgeId: b})
+	verifAssert("the gRPC query returns the same index", rerr == nil && res.OutputIndex == idx)
+}
